@@ -109,6 +109,7 @@ def _rsa_ops(w):
 
 EC_KEYS = {
     'healthy-256': (2, 'rand'), 'healthy-224': (3, 'rand'), 'small-192': (1, 5),
+    'healthy-192': (1, 'rand'), 'small-256': (2, 0xABCD1234 << 32), 'rep-256': (2, sum(0x1234567 << (32 * i) for i in range(8))),
     'small-256k1': (6, 0x12345678 << 64), 'near-256': (2, 'rand+3'), 'unknown': (0, None),
     'binary': (8, None), 'invalid-384': (4, 'invalid'),
 }
